@@ -71,7 +71,12 @@ def main():
         if os.environ.get("LEXVERIF_DEV_SKIP_PROOF"):      # development only, never in MANIFEST commands
             obligations, discharged, probs, thms = 0, 0, [], []
         else:
-            obligations, discharged, probs, thms = proof_side(prop, ctx)
+            try:
+                obligations, discharged, probs, thms = proof_side(prop, ctx)
+            except Broken as e:
+                # e.g. the translator no longer recognises the source: the property is no longer shown to
+                # hold; still run the correspondence (with the last generated files) to look for a failing input
+                obligations, discharged, probs, thms = 0, 0, [(e.stage, e.detail)], []
         ctx.coverage.update({"obligations": obligations, "discharged": discharged,
                              "theorems": thms,
                              "checker_cmd": "cd /verif/coq && make && coqc props/%s.v (Print Assumptions); "
